@@ -82,7 +82,20 @@ fn extract_stdin_once() -> Result<Option<String>, Box<dyn std::error::Error>> {
 }
 
 pub fn run() {
-    let args: Vec<String> = std::env::args().collect();
+    // std::env::args() panics on an argument that is not valid UTF-8
+    let args: Vec<String> = match std::env::args_os()
+        .map(|arg| arg.into_string())
+        .collect::<Result<_, _>>()
+    {
+        Ok(args) => args,
+        Err(bad) => {
+            eprintln!(
+                "Error: argument is not valid UTF-8: {}",
+                bad.to_string_lossy()
+            );
+            std::process::exit(1);
+        }
+    };
     if let Err(e) = run_with_args(args, std::io::stdout()) {
         // Check if it's a clap help/version exit
         if let Some(clap_err) = e.downcast_ref::<clap::Error>() {
